@@ -31,6 +31,7 @@ for _name, _outs in (("Measure", [_ht.Bool]), ("MeasureReset", [_q, _ht.Bool])):
 
 HEAD = """from guppylang import guppy
 import guppylang.std.qsystem as qsystem
+import guppylang.std.quantum.functional as qf
 from guppylang.std.quantum import *
 from guppylang.std.quantum import qubit, discard, reset, project_z
 from guppylang.std.angles import angle, pi
@@ -74,7 +75,11 @@ def cases(gates):
             for pr in preps:
                 lines, st = prep_code(pr, k)
                 args = [f"q{i}" for i in perm] + [f"angle({a})" for a in g["angles"]]
-                lines.append(f"{g['name']}({', '.join(args)})")
+                if g["name"].startswith("qf."):
+                    # functional syntax: the qubits are consumed and handed back in the same order
+                    lines.append(f"{', '.join(f'q{i}' for i in perm)} = {g['name']}({', '.join(args)})")
+                else:
+                    lines.append(f"{g['name']}({', '.join(args)})")
                 ref = apply(st, M, list(perm), k)
                 out.append({"gate": g["name"], "angles": g["angles"], "perm": list(perm), "prep": pr, "n": k, "lines": lines, "ref": ref, "kind": "unitary"})
     # projective operations on the product superposition (and on basis states)
